@@ -104,7 +104,7 @@ macro_rules! parts {
     }};
 }
 
-static SYS: LockStep = LockStep { property: "C17", probes: true, seed: None };
+static SYS: LockStep = LockStep { property: "C17", probes: true, seed: None, via_feed: false };
 
 /// the core of the save / restore interplay, twice as deep
 fn alpha_core(cfg: &Cfg) -> Vec<Op> {
@@ -149,7 +149,7 @@ fn core_part(tier: Tier) -> Part<'static, LockStep> {
     }
 }
 
-static SYS_MODES: LockStep = LockStep { property: "C17", probes: false, seed: None };
+static SYS_MODES: LockStep = LockStep { property: "C17", probes: false, seed: None, via_feed: false };
 
 /// Far positions: save and restore at rows / columns around every power-of-two and type
 /// boundary up to beyond 2^17, on screens that have them. Direct part (no reference
